@@ -678,15 +678,28 @@ def c18(tier):
         system_tasks=c18_system_tasks(tier))
 
 
+def c20_system_tasks(tier):
+    """Job processes that log their own events (job-outputs/<job>/events.log) in batches that run concurrently:
+    every such event must reach the node event logs exactly once."""
+    st = [t for i, t in enumerate(resub_slice_tasks(["C20R"], tier, "c20")) if i % 2 == 0 or tier == "thorough"]
+    b = (1, 0) if tier == "quick" else (2, 0)
+    ev = rep_tasks(["C20S"], b, graphs=["pair", "indep3", "chain3", "fork"], params=[("sz1-mxN", dict(size=1, max_nodes=None)), ("sz2-mxN", dict(size=2, max_nodes=None)), ("sz1-mx2", dict(size=1, max_nodes=2))])
+    ev += rep_tasks(["C20S"], (0, 0), graphs=["fan5", "wide5"], params=[("sz2-q2", dict(size=2, nproc=2)), ("one-batch-q2", dict(size=5, nproc=2))])
+    for t in ev:
+        t["scen"]["job_events"] = 1
+        t["id"] = "c20s-" + t["id"]
+    return st + ev
+
+
 @check("C20")
 def c20(tier):
     return modee.enum_check(
         "C20", tier, ["c20_events", "c20_stats", "c20_procstats", "c20_tallies"],
         "cases: (a) all multisets of <=3 (quick) / <=4 (thorough) events over 2 names x 3 timestamps (tie, no fractional part) x 2 payloads, distributed over 1-3 per-process event files in every way, "
-        "written by the real event logger, consolidated by EventsSummary, read back, re-read and re-consolidated; (b) every sample sequence of length 1-4 over {0,1,2,5} through ResourceMonitorAggregator, and per-process statistics of two job processes with every presence mask over <=4 ticks x sample values; "
-        "(c) every result set over {successful, failed(1), failed(2), canceled, missing}^n, n<=4 through JobSubmitter._handle_completion and ResultsSummary; "
-        "(d) system level (mode S): the tallies of results.json after resubmission histories on every 3-job DAG. non-trivial: more than one event/sample",
-        E_ASSUMPTIONS, system_tasks=[t for i, t in enumerate(resub_slice_tasks(["C20R"], tier, "c20")) if i % 2 == 0 or tier == "thorough"])
+        "written by the real event logger, consolidated by EventsSummary, read back, re-read, re-consolidated, and consolidated again after the consolidated files were deleted and one more event logged (what resubmit-jobs does); (b) every sample sequence of length 1-4 over {0,1,2,5} through ResourceMonitorAggregator, and per-process statistics of two job processes with every presence mask over <=4 ticks x sample values; "
+        "(c) every result set over {successful, failed(1), failed(2), failed(-9), canceled, missing}^n, n<=4 through JobSubmitter._handle_completion and ResultsSummary; "
+        "(d) system level (mode S): the tallies of results.json after resubmission histories on every 3-job DAG; job processes logging their own events (start/end, file handle kept open) in concurrently running batches, 1 (thorough 2) preemption(s): each event exactly once in the node event logs at completion. non-trivial: more than one event/sample",
+        E_ASSUMPTIONS, system_tasks=c20_system_tasks(tier))
 
 
 from . import echecks2  # noqa: E402,F401
